@@ -71,6 +71,7 @@ def repo_sources():
 def coq_build(log):
     """Full .vo build of the development (incremental make). Returns (ok, output)."""
     with Lock("coq"):
+        mk_coqproject()
         if not os.path.exists(os.path.join(COQ, "Makefile")) or \
            os.path.getmtime(os.path.join(COQ, "Makefile")) < os.path.getmtime(os.path.join(COQ, "_CoqProject")):
             sh(["coq_makefile", "-f", "_CoqProject", "-o", "Makefile"], cwd=COQ)
@@ -116,27 +117,43 @@ def coq_properties(prop, log):
 
 
 # ---------------------------------------------------------------- builds
-def build_model(log):
-    """Extract and build the OCaml model driver. Returns path or raises."""
-    with Lock("ocaml"):
-        srcs = sorted(glob.glob(os.path.join(COQ, "*.vo"))) + sorted(glob.glob(os.path.join(VERIF, "ocaml", "*.ml")))
-        key = file_hash([s for s in srcs if not os.path.basename(s).startswith("Properties_") and not s.endswith("Proofs.vo")])
-        d = os.path.join(BUILD, "ocaml")
+def mk_coqproject():
+    """_CoqProject lists every coq/*.v (Extract_*.v excluded: they are run from the build dir)."""
+    files = sorted(os.path.basename(f) for f in glob.glob(os.path.join(COQ, "*.v")) if not os.path.basename(f).startswith("Extract_"))
+    txt = "-Q . Amgcl\n" + "\n".join(files) + "\n"
+    p = os.path.join(COQ, "_CoqProject")
+    if not os.path.exists(p) or open(p).read() != txt:
+        open(p, "w").write(txt)
+
+
+def build_model(log, group="kernels"):
+    """Extract (coq/Extract_<group>.v) and build the OCaml model driver of a group:
+    ocaml/io.ml + ocaml/<group>/*.ml + ocaml/main.ml. Returns path or raises."""
+    with Lock("ocaml_" + group):
+        ext = os.path.join(COQ, "Extract_%s.v" % group)
+        rc, dep = sh(["coqdep", "-Q", ".", "Amgcl", "-sort", os.path.basename(ext)], cwd=COQ)
+        deps = [os.path.join(COQ, re.sub(r"\.v$", ".vo", d.replace("./", ""))) for d in dep.split() if not os.path.basename(d).startswith("Extract_")]
+        srcs = deps + [ext, os.path.join(VERIF, "ocaml", "io.ml"), os.path.join(VERIF, "ocaml", "main.ml")] + \
+            sorted(glob.glob(os.path.join(VERIF, "ocaml", group, "*.ml")))
+        key = file_hash(srcs)
+        d = os.path.join(BUILD, "ocaml", group)
         exe = os.path.join(d, "model_drv")
         stamp = os.path.join(d, "stamp")
         if os.path.exists(exe) and os.path.exists(stamp) and open(stamp).read() == key:
             return exe
         shutil.rmtree(d, ignore_errors=True); os.makedirs(d)
-        rc, out = sh(["timeout", "900", "coqc", "-Q", COQ, "Amgcl", os.path.join(COQ, "Extract.v")], cwd=d, timeout=1000)
+        shutil.copy(ext, d)
+        rc, out = sh(["timeout", "900", "coqc", "-Q", COQ, "Amgcl", os.path.basename(ext)], cwd=d, timeout=1000)
         if rc != 0: raise RuntimeError("extraction failed:\n" + out)
-        for f in glob.glob(os.path.join(VERIF, "ocaml", "*.ml")): shutil.copy(f, d)
+        for f in [os.path.join(VERIF, "ocaml", "io.ml"), os.path.join(VERIF, "ocaml", "main.ml")] + glob.glob(os.path.join(VERIF, "ocaml", group, "*.ml")):
+            shutil.copy(f, d)
         files = [f for f in os.listdir(d) if f.endswith((".ml", ".mli")) and f != "main.ml"]
         rc, out = sh(["ocamlfind", "ocamldep", "-sort"] + files, cwd=d)
         order = out.split()
-        rc, out = sh(["ocamlfind", "ocamlopt", "-O2" if False else "-w", "-a", "-package", "zarith", "-linkpkg"] + order + ["main.ml", "-o", "model_drv"], cwd=d, timeout=900)
+        rc, out = sh(["ocamlfind", "ocamlopt", "-w", "-a", "-package", "zarith", "-linkpkg"] + order + ["main.ml", "-o", "model_drv"], cwd=d, timeout=900)
         if rc != 0: raise RuntimeError("ocaml build failed:\n" + out)
         open(stamp, "w").write(key)
-        log.append(("ocaml build", 0))
+        log.append(("ocaml build " + group, 0))
         return exe
 
 
@@ -313,7 +330,7 @@ def main():
     # 2. builds
     model = None; cpp = {}; cpp_err = {}
     try:
-        model = build_model(log)
+        model = build_model(log, getattr(mod, "MODEL", "kernels"))
     except Exception as e:
         violations.append(("broken-model-build", dict(theorem="Extract.v / OCaml driver", detail=str(e)[-3000:])))
     drivers = getattr(mod, "DRIVERS", [])
